@@ -601,3 +601,40 @@ def ag4(proj, rep):
                           f'conversions do not commute with the angle maps', m, st3.args[0].elts[k])
     rep.count('AG4.obligations', n)
     return n
+
+
+# ------------------------------------------------------------------------------------------------ AG5
+RULE_AG5 = ('AG5: the gimbal-lock threshold `zero_eps` that is compared with beta = arccos(x22) is not tighter than the resolution of arccos near 1 '
+            '(sqrt(2*machine eps) ~ 2e-8): every public default that reaches `beta < zero_eps` is >= 5e-8. With a tighter default an exactly degenerate '
+            'rotation whose x22 rounds to 1 - 1ulp takes the generic branch and alpha+gamma is lost.')
+
+
+def ag5(proj, rep):
+    rep.rule('AG5', RULE_AG5)
+    MODQ = 'numqi.group._lie'
+    m = proj.mod(MODQ)
+    n = 0
+    for fi in [f for f in proj.funcs.values() if f.module is m and 'zero_eps' in f.all_params]:
+        d = fi.defaults.get('zero_eps')
+        if d is None:
+            continue
+        # does it reach the gimbal test? (passes zero_eps on, or is the extractor itself)
+        reaches = any(isinstance(c, ast.Call) and any(isinstance(a, ast.Name) and a.id == 'zero_eps' for a in list(c.args) + [k.value for k in c.keywords])
+                      and ast.unparse(c.func) in ('_so3_to_angle_hf0', 'so3_to_angle', 'su2_to_angle') for c in ast.walk(fi.node))
+        if not reaches:
+            continue
+        n += 1
+        try:
+            v = float(ast.literal_eval(d))
+        except Exception:
+            rep.undecided('AG5', fi.qual, f'default `{ast.unparse(d)}` not literal', m, fi.node, text=f'{fi.qual} zero_eps')
+            n -= 1
+            continue
+        if v >= 5e-8:
+            rep.ok('AG5', fi.qual, f'zero_eps default {v:g} >= arccos resolution', m, fi.node, text=f'{fi.qual} zero_eps')
+        else:
+            rep.violation('AG5', fi.qual, f'default zero_eps={v:g} reaches the gimbal test `beta < zero_eps` with beta = arccos(x22): arccos cannot resolve angles below '
+                          f'~2e-8, so exactly degenerate rotations whose x22 rounds to 1-1ulp (beta ~ 1.5e-8) are treated as generic and alpha+gamma is lost', m, fi.node,
+                          text=f'{fi.qual} zero_eps')
+    rep.count('AG5.defaults', n)
+    return n
